@@ -34,10 +34,11 @@ ssize_t h5_objs() { return H5Fget_obj_count((hid_t)H5F_OBJ_ALL, H5F_OBJ_FILE | H
 struct Handles {
     std::vector<Block> blocks; std::vector<DataArray> arrays; std::vector<Dimension> dims; std::vector<Tag> tags; std::vector<MultiTag> mtags; std::vector<Feature> feats; std::vector<Section> secs; std::vector<Property> props; std::vector<DataFrame> frames; std::vector<DataView> views; std::vector<Source> sources; std::vector<Group> groups;
     size_t size() const { return blocks.size() + arrays.size() + dims.size() + tags.size() + mtags.size() + feats.size() + secs.size() + props.size() + frames.size() + views.size() + sources.size() + groups.size(); }
-    void collect(File &f, Rng &r, size_t want) {
+    void collect(File &f, Rng &r0, size_t want, bool all = false) {
+        struct { Rng &r; bool all; bool chance(double p) { return all || r.chance(p); } } r{r0, all};
         std::function<void(const Section &)> sec = [&](const Section &s) { if (r.chance(0.5)) secs.push_back(s); for (auto &p : s.properties()) if (r.chance(0.5)) props.push_back(p); for (auto &c : s.sections()) sec(c); };
         for (auto &b : f.blocks()) { if (r.chance(0.6)) blocks.push_back(b);
-            for (auto &a : b.dataArrays()) { if (r.chance(0.5)) arrays.push_back(a); for (auto &d : a.dimensions()) if (r.chance(0.4)) dims.push_back(d); if (r.chance(0.3)) { try { NDSize e = a.dataExtent(); if (e.size() && e.nelms() > 0) views.push_back(DataView(a, e, NDSize(e.size(), 0))); } catch (...) {} } }
+            for (auto &a : b.dataArrays()) { if (r.chance(0.5)) arrays.push_back(a); for (auto &d : a.dimensions()) if (r.chance(0.4)) dims.push_back(d); if (r0.chance(0.3)) { try { NDSize e = a.dataExtent(); if (e.size() && e.nelms() > 0) views.push_back(DataView(a, e, NDSize(e.size(), 0))); } catch (...) {} } }
             for (auto &t : b.tags()) { if (r.chance(0.5)) tags.push_back(t); for (auto &ft : t.features()) if (r.chance(0.5)) feats.push_back(ft); }
             for (auto &t : b.multiTags()) if (r.chance(0.5)) mtags.push_back(t); for (auto &x : b.dataFrames()) if (r.chance(0.5)) frames.push_back(x); for (auto &x : b.sources()) if (r.chance(0.5)) sources.push_back(x); for (auto &x : b.groups()) if (r.chance(0.5)) groups.push_back(x); }
         for (auto &s : f.sections()) sec(s);
@@ -66,13 +67,24 @@ void stale_calls(Report &rp, Handles &h) {
 }
 
 // ---- the writer process. Protocol: writes snapshot + report files, then a byte on `up` per operation boundary; waits for a byte on `down` before the destructive last step.
-void writer(Ctx &c, const std::string &path, bool close_scenario, bool ro_session, int up, int down) {
+void writer(Ctx &c, const std::string &path, bool close_scenario, bool ro_session, int up, int down, int pre, bool keep_handles, bool bulk) {
     Rng &r = c.rng; Report rp; rp.out.open(c.path("report.txt"));
     nix::verif::setSink(sink);
     ssize_t base_objs = h5_objs();
     Graph g(c); g.hostile_pct = 20; g.create(path); g.grow((int)r.range(15, 45));
+    // bulk: far more live handles at close() than a random history leaves (every entity, plus a block full of small arrays)
+    if (bulk) { Block bb = g.f.createBlock("bulk block", "t"); int n = (int)r.range(70, 180); for (int i = 0; i < n; i++) { DataArray a = bb.createDataArray("bulk " + str(i), "t", DataType::Double, NDSize{2}); if (i % 3 == 0) a.appendSetDimension(); } }
     if (ro_session) { g.close(); g.open(FileMode::ReadOnly); }
-    Handles h; h.collect(g.f, r, 40); rp.note("handles_alive", (long)h.size());
+    // pre 1: the flushed session is a second session on an existing file; pre 2: an earlier flush succeeded. In both, the changes that the
+    // judged flush has to bring to disk are made below the file level only (entity attributes, data, links, entities inside blocks / sections)
+    if (!close_scenario && pre) {
+        if (pre == 1) { g.close(); g.open(FileMode::ReadWrite); } else { if (!g.f.flush()) rp.viol("C11/flush-returned-false", "first flush() returned false"); }
+        g.grow((int)r.range(5, 20), {0, 10, 6, 2, 0});
+        try { if (g.f.blockCount()) { Block b = g.f.getBlock(r.u(g.f.blockCount())); g.make_array(b, "late array " + str(r.u(1000))); } } catch (std::exception &) {}
+        try { if (g.f.blockCount()) { Block b = g.f.getBlock(r.u(g.f.blockCount())); if (b.dataArrayCount()) b.getDataArray(r.u(b.dataArrayCount())).label("late label " + str(r.u(1000))); } } catch (std::exception &) {}
+        try { if (g.f.sectionCount()) g.f.getSection(r.u(g.f.sectionCount())).createProperty("late property " + str(r.u(1000)), Variant((double)r.u(100))); } catch (std::exception &) {}
+    }
+    Handles h; if (keep_handles) h.collect(g.f, r, 40, bulk); rp.note("handles_alive", (long)h.size()); rp.note(h.size() == 0 ? "sessions_without_live_handles" : "sessions_with_live_handles", 1); if (h.size() > 64) rp.note("sessions_with_more_than_64_handles", 1);
     auto tick = [&] { char b = 1; ssize_t w = write(up, &b, 1); (void)w; };
     if (!close_scenario) {
         bool ok = g.f.flush(); if (!ok) rp.viol("C11/flush-returned-false", "flush() returned false");
@@ -108,11 +120,11 @@ void writer(Ctx &c, const std::string &path, bool close_scenario, bool ro_sessio
     }
 }
 
-void scenario(Ctx &c, bool close_scenario, bool ro_session, int kill_after) {
+void scenario(Ctx &c, bool close_scenario, bool ro_session, int kill_after, int pre, bool keep_handles, bool bulk) {
     std::string path = c.path("c11.nix"); int up[2], down[2]; if (pipe(up) || pipe(down)) { c.check(false, "C11/harness/pipe", "pipe"); return; }
-    c.op(std::string(close_scenario ? "writer: history, close" : "writer: history, flush") + (ro_session ? " (ReadOnly session)" : "") + ", SIGKILL at boundary " + str(kill_after));
+    c.op(std::string(close_scenario ? "writer: history, close" : "writer: history, flush") + (ro_session ? " (ReadOnly session)" : "") + (pre == 1 ? " (second session)" : pre == 2 ? " (after an earlier flush)" : "") + (keep_handles ? (bulk ? ", every handle kept" : ", handles kept") : ", no handle kept") + ", SIGKILL at boundary " + str(kill_after));
     fflush(nullptr); pid_t pid = fork();
-    if (pid == 0) { close(up[0]); close(down[1]); try { writer(c, path, close_scenario, ro_session, up[1], down[0]); } catch (std::exception &e) { std::ofstream o(c.path("report.txt"), std::ios::app); o << "VIOL\tC11/harness/writer-exception\t" << e.what() << "\n"; } _exit(0); }
+    if (pid == 0) { close(up[0]); close(down[1]); try { writer(c, path, close_scenario, ro_session, up[1], down[0], pre, keep_handles, bulk); } catch (std::exception &e) { std::ofstream o(c.path("report.txt"), std::ios::app); o << "VIOL\tC11/harness/writer-exception\t" << e.what() << "\n"; } _exit(0); }
     close(up[1]); close(down[0]);
     auto wait_ticks = [&](int n) { char b; for (int i = 0; i < n; i++) { if (read(up[0], &b, 1) != 1) return false; } return true; };
     bool alive = true;
@@ -147,7 +159,8 @@ void run_case(Ctx &c) {
     bool close_scn = c.index % 2 == 1; bool ro = close_scn && c.rng.chance(0.35);
     int boundary = close_scn ? 0 : (c.quick() ? (int)c.rng.u(6) : (int)(c.index / 2 % 12));
     c.fp((close_scn ? "C" : "F") + str(ro) + str(boundary) + str(c.rng.u(1000)));
-    scenario(c, close_scn, ro, boundary);
+    int pre = close_scn ? 0 : (int)c.rng.u(3); bool keep = close_scn ? true : c.rng.chance(0.5); bool bulk = close_scn && c.rng.chance(0.3);
+    scenario(c, close_scn, ro, boundary, pre, keep, bulk);
     c.nontrivial = c.checks >= 2;
 }
 long ncases(const std::string &tier) { return tier == "quick" ? 120 : 3000; }
